@@ -39,7 +39,11 @@ def make_set(cls, src, w, fields, view=False):
         kw.update(log_likelihood=np.arange(N) / 3)
     # attached evidence: an exact zero in half of the cells (log Z = 0 +- 0 is a legitimate value, not "absent")
     zero = (NSS.index(src) + WS.index(w) + len(fields)) % 2 == 0
-    ev = (0.0, 0.0) if zero else (1.25, 0.125)
+    # (non-zero values are not representable in float32: a detour through single precision is visible in a float64 set; they are
+    #  attached as 0-d arrays of the set's namespace and width, the way the samplers attach them)
+    ev = (0.0, 0.0) if zero else (1.2345678901234567, 0.12345678901234568)
+    if not zero and (NSS.index(src) + len(fields)) % 2 == 0:
+        ev = tuple(xp.asarray(v, dtype=ns.native_dtype(src, w)) for v in ev)
     if cls == "smc":
         kw.update(beta=0.0 if zero else 0.5, log_evidence=ev[0], log_evidence_error=ev[1])
     elif cls == "samples" and fields != "all":      # with the full triple the constructor recomputes the evidence
@@ -146,7 +150,7 @@ def check_table(chk, cells):
         if cls == "smc" or (cls == "samples" and fields != "all" and method != "from_samples"):
             for f in (("beta",) if cls == "smc" else ()) + ("log_evidence", "log_evidence_error"):
                 a, b = getattr(s, f), getattr(t, f)
-                if b is None or abs(float(a) - float(b)) > 1e-6:
+                if b is None or abs(float(a) - float(b)) > tol * max(1.0, abs(float(a))):
                     problems.append(f"{f} {a!r} -> {b!r}"); kept = False
         if t.parameters != s.parameters:
             problems.append("parameters changed")
@@ -205,12 +209,13 @@ def check_sampler_precision(chk, quick):
 
 
 def check_output_option(chk):
-    """sample_posterior(xp=...) converts the returned samples for every ordered pair"""
-    for src, tgt in itertools.product(NSS, NSS):
+    """sample_posterior(xp=...) converts the returned samples for every ordered pair, whatever way the precision was requested"""
+    for (src, tgt), dspec in itertools.product(itertools.product(NSS, NSS), ("default", "name64", "native64", "native32")):
         t = smcrun.Target(2)
-        a = al.make_aspire(t, dims=2, xp_name=src)
+        dkw = {} if dspec == "default" else {"dtype": "float64" if dspec == "name64" else ns.native_dtype(src, "f64" if dspec == "native64" else "f32")}
+        a = al.make_aspire(t, dims=2, xp_name=src, **dkw)
         a.fit(al.training_samples(2, 5))
-        case = {"level": "sample_posterior(xp=)", "src": src, "tgt": tgt}
+        case = {"level": "sample_posterior(xp=)", "src": src, "tgt": tgt, "dtype": dspec}
         chk.case(None, json.dumps(case))
         chk.count("output_option")
         try:
